@@ -115,7 +115,7 @@ def check_obligations(ctx, rule_id: str, ids: set[str]):
                 if not ok:
                     ctx.violation(rule_id, "cursor", "FakeSnowflakeCursor._transform", f"{oid}: {l.name} before {e.name}", loc,
                                   f"pipeline order: `{l.name}` (stage {l.index}) runs before `{e.name}` (stage {e.index}) — {reason}")
-    ctx.floor(f"{rule_id} obligations resolved", resolved, max(1, len(ids) - 1))
+    ctx.floor(f"{rule_id} obligations resolved", resolved, 1)
 
 
 def rule_order(ctx):
